@@ -461,7 +461,7 @@ type specBound struct {
 
 var specBounds = []specBound{
 	{"parseATXHeading", ">=", 7, 1, "ATX heading: opening sequence of 1–6 '#' (reject from 7)", nil, "C15"},
-	{"parseListMarker", "iter<=", 9, 1, "ordered list marker: 1–9 digits (a counting loop takes at most 9 values)", nil, "C15"},
+	{"parseListMarker", "iter<=", 9, 1, "ordered list marker: 1–9 digits (a counting loop takes at most 9 values, or the line is cut to 9 digits + delimiter = 10 bytes when longer)", []string{">=11"}, "C15"},
 	{"parseLinkLabel", ">=", 999, 1, "link label: at most 999 characters (stop at 999)", nil, "C12"},
 	{"parseLinkLabel", "<=", 998, 1, "link label: at most 999 characters (continue up to 998)", nil, "C12"},
 	{"parseAutolink", "<=", 2, 1, "autolink scheme: at least 2 characters", nil, "C15"},
